@@ -122,7 +122,8 @@ impl SExec {
                 let a = self.amt(amount, t, si);
                 let tok = Token { address: self.tokens[t].clone(), amount: a };
                 if *spender == 200 {
-                    self.self_spender(ctx, t, a, *abort);
+                    // sender aliasing the spender, and both entry points
+                    self.self_spender(ctx, t, a, *abort, *sender % 2 == 0, *meta % 2 == 1);
                     return;
                 }
                 let pl = payload.resolve();
@@ -272,20 +273,29 @@ impl SExec {
 
     /// the gas service's own address named as spender by an outside caller: nobody can
     /// authorise for it, so the payment must be refused
-    fn self_spender(&mut self, ctx: &mut Ctx, t: usize, a: i128, abort: Option<u16>) {
+    fn self_spender(&mut self, ctx: &mut Ctx, t: usize, a: i128, abort: Option<u16>, sender_is_self: bool, add: bool) {
         let env = self.sim.env.clone();
         let gas = self.gas.clone();
         let a = if a <= 0 { 1 } else { a.min(self.m.held[t].max(1)) };
         let tok = Token { address: self.tokens[t].clone(), amount: a };
-        let args: SVec<Val> = (self.p[2].clone(), SStr::from_str(&env, "ethereum"), SStr::from_str(&env, "0xdest"), Bytes::from_slice(&env, &[1, 2, 3]), gas.clone(), tok, Bytes::new(&env)).into_val(&env);
+        let sender = if sender_is_self { gas.clone() } else { self.p[2].clone() };
+        let func: &'static str = if add { "add_gas" } else { "pay_gas" };
+        let args: SVec<Val> = if add {
+            (sender, SStr::from_str(&env, "0xaa-0"), gas.clone(), tok).into_val(&env)
+        } else {
+            (sender, SStr::from_str(&env, "ethereum"), SStr::from_str(&env, "0xdest"), Bytes::from_slice(&env, &[1, 2, 3]), gas.clone(), tok, Bytes::new(&env)).into_val(&env)
+        };
         ctx.count("probe.contract_address_named_as_spender_from_outside");
-        ctx.judged(&["C07", "C14"], hash_of(&self.m), "pay_gas", "self-spender");
-        let res = self.sim.call(&gas, "pay_gas", args, &[], abort);
-        if !after_call(ctx, &res, "pay_gas", &["C14"]) {
+        if sender_is_self {
+            ctx.count("probe.service_named_as_both_sender_and_spender");
+        }
+        ctx.judged(&["C07", "C14"], hash_of(&self.m), func, if sender_is_self { "self-spender-and-sender" } else { "self-spender" });
+        let res = self.sim.call(&gas, func, args, &[], abort);
+        if !after_call(ctx, &res, func, &["C14"]) {
             return;
         }
-        ctx.count(&format!("op.pay_gas.self-spender.{}", res.out.class()));
-        must_fail(ctx, &res, &["C07", "C14"], "pay_gas/accepted-with-service-as-unauthorised-spender", "the service's own address was named as spender by an outside caller");
+        ctx.count(&format!("op.{}.self-spender.{}", func, res.out.class()));
+        must_fail(ctx, &res, &["C07", "C14"], &format!("{}/accepted-with-service-as-unauthorised-spender", func), "the service's own address was named as spender by an outside caller");
     }
 
     #[allow(clippy::too_many_arguments)]
@@ -415,8 +425,8 @@ impl World for WorldS {
                     spender: rng.range(2, 3) as u8, token: rng.below(3) as u8, amount: inamt(rng), sender: rng.below(NP as u64) as u8, msg_id: StrSpec::gen(rng),
                     auth: if fault { *rng.pick(&[AuthVar::Counterparty, AuthVar::Owner, AuthVar::Stranger, AuthVar::Nobody, AuthVar::RightOtherArgs, AuthVar::RootOnly]) } else { AuthVar::Right }, abort,
                 },
-                2 => SOp::Collect { receiver: rng.range(4, 5) as u8, token: rng.below(3) as u8, amount: outamt(rng), auth: if fault { *rng.pick(&[AuthVar::Counterparty, AuthVar::Owner, AuthVar::Stranger, AuthVar::Nobody, AuthVar::RightOtherArgs]) } else { AuthVar::Right }, abort },
-                3 => SOp::Refund { receiver: rng.range(2, 5) as u8, token: rng.below(3) as u8, amount: outamt(rng), msg_id: StrSpec::gen(rng), auth: if fault { *rng.pick(&[AuthVar::Counterparty, AuthVar::Owner, AuthVar::Stranger, AuthVar::Nobody, AuthVar::RightOtherArgs]) } else { AuthVar::Right }, abort },
+                2 => SOp::Collect { receiver: *rng.pick(&[4u8, 5, 4, 5, 4, 5, 0, 1, 1, 2]), token: rng.below(3) as u8, amount: outamt(rng), auth: if fault { *rng.pick(&[AuthVar::Counterparty, AuthVar::Owner, AuthVar::Stranger, AuthVar::Nobody, AuthVar::RightOtherArgs]) } else { AuthVar::Right }, abort },
+                3 => SOp::Refund { receiver: *rng.pick(&[2u8, 3, 4, 5, 2, 3, 4, 5, 0, 1]), token: rng.below(3) as u8, amount: outamt(rng), msg_id: StrSpec::gen(rng), auth: if fault { *rng.pick(&[AuthVar::Counterparty, AuthVar::Owner, AuthVar::Stranger, AuthVar::Nobody, AuthVar::RightOtherArgs]) } else { AuthVar::Right }, abort },
                 4 => SOp::TransferOwnership { to: rng.below(NP as u64) as u8, auth: if fault || rng.chance(1, 3) { *rng.pick(&[AuthVar::Former, AuthVar::OtherRole, AuthVar::Counterparty, AuthVar::Stranger, AuthVar::Nobody, AuthVar::RightOtherArgs]) } else { AuthVar::Right }, abort },
                 _ => SOp::Resubmit { k: rng.below(64) as u16 },
             };
